@@ -24,12 +24,6 @@ Lemma gen_wiring_Slice_columns_base :
       "columns_unweighted_base")).
 Proof. reflexivity. Qed.
 
-(* _Slice.columns_squared_base *)
-Lemma gen_wiring_Slice_columns_squared_base :
-  wsrc_Slice_columns_squared_base = Some (WIf (WUn "not" (WAttr (WAttr (WSelf "_measures")
-      "columns_squared_base") "is_defined")) (WNone) (w_marginal_of "columns_squared_base")).
-Proof. reflexivity. Qed.
-
 (* _Slice.columns_margin *)
 Lemma gen_wiring_Slice_columns_margin :
   wsrc_Slice_columns_margin = Some (WIf (WUn "not" (WAttr (WAttr (WSelf "_measures")
@@ -149,4 +143,133 @@ Proof. reflexivity. Qed.
 (* _Nub.table_base *)
 Lemma gen_wiring_Nub_table_base :
   wsrc_Nub_table_base = Some (WAttr (WSelf "_scalar") "table_base").
+Proof. reflexivity. Qed.
+
+(* SecondOrderMeasures.column_unweighted_bases *)
+Lemma gen_wiring_SecondOrderMeasures_column_unweighted_bases :
+  wsrc_SecondOrderMeasures_column_unweighted_bases = Some (WCall (WGlobal "_ColumnUnweightedBases")
+      [WSelf "_dimensions"; WVar "self"; WSelf "_cube_measures"] []).
+Proof. reflexivity. Qed.
+
+(* SecondOrderMeasures.column_weighted_bases *)
+Lemma gen_wiring_SecondOrderMeasures_column_weighted_bases :
+  wsrc_SecondOrderMeasures_column_weighted_bases = Some (WCall (WGlobal "_ColumnWeightedBases") [WSelf
+      "_dimensions"; WVar "self"; WSelf "_cube_measures"] []).
+Proof. reflexivity. Qed.
+
+(* SecondOrderMeasures.columns_table_unweighted_base *)
+Lemma gen_wiring_SecondOrderMeasures_columns_table_unweighted_base :
+  wsrc_SecondOrderMeasures_columns_table_unweighted_base = Some (WCall (WGlobal "_MarginTableBase")
+      [WSelf "_dimensions"; WVar "self"; WSelf "_cube_measures"; WAttr (WGlobal "MO") "COLUMNS";
+      WAttr (WSelf "_cube_measures") "unweighted_cube_counts"] []).
+Proof. reflexivity. Qed.
+
+(* SecondOrderMeasures.columns_table_weighted_base *)
+Lemma gen_wiring_SecondOrderMeasures_columns_table_weighted_base :
+  wsrc_SecondOrderMeasures_columns_table_weighted_base = Some (WCall (WGlobal "_MarginTableBase")
+      [WSelf "_dimensions"; WVar "self"; WSelf "_cube_measures"; WAttr (WGlobal "MO") "COLUMNS";
+      WAttr (WSelf "_cube_measures") "weighted_cube_counts"] []).
+Proof. reflexivity. Qed.
+
+(* SecondOrderMeasures.columns_unweighted_base *)
+Lemma gen_wiring_SecondOrderMeasures_columns_unweighted_base :
+  wsrc_SecondOrderMeasures_columns_unweighted_base = Some (WCall (WGlobal "_MarginUnweightedBase")
+      [WSelf "_dimensions"; WVar "self"; WSelf "_cube_measures"; WAttr (WGlobal "MO") "COLUMNS"]
+      []).
+Proof. reflexivity. Qed.
+
+(* SecondOrderMeasures.columns_weighted_base *)
+Lemma gen_wiring_SecondOrderMeasures_columns_weighted_base :
+  wsrc_SecondOrderMeasures_columns_weighted_base = Some (WCall (WGlobal "_MarginWeightedBase") [WSelf
+      "_dimensions"; WVar "self"; WSelf "_cube_measures"; WAttr (WGlobal "MO") "COLUMNS"] []).
+Proof. reflexivity. Qed.
+
+(* SecondOrderMeasures.row_unweighted_bases *)
+Lemma gen_wiring_SecondOrderMeasures_row_unweighted_bases :
+  wsrc_SecondOrderMeasures_row_unweighted_bases = Some (WCall (WGlobal "_RowUnweightedBases") [WSelf
+      "_dimensions"; WVar "self"; WSelf "_cube_measures"] []).
+Proof. reflexivity. Qed.
+
+(* SecondOrderMeasures.row_weighted_bases *)
+Lemma gen_wiring_SecondOrderMeasures_row_weighted_bases :
+  wsrc_SecondOrderMeasures_row_weighted_bases = Some (WCall (WGlobal "_RowWeightedBases") [WSelf
+      "_dimensions"; WVar "self"; WSelf "_cube_measures"] []).
+Proof. reflexivity. Qed.
+
+(* SecondOrderMeasures.rows_table_unweighted_base *)
+Lemma gen_wiring_SecondOrderMeasures_rows_table_unweighted_base :
+  wsrc_SecondOrderMeasures_rows_table_unweighted_base = Some (WCall (WGlobal "_MarginTableBase")
+      [WSelf "_dimensions"; WVar "self"; WSelf "_cube_measures"; WAttr (WGlobal "MO") "ROWS"; WAttr
+      (WSelf "_cube_measures") "unweighted_cube_counts"] []).
+Proof. reflexivity. Qed.
+
+(* SecondOrderMeasures.rows_table_weighted_base *)
+Lemma gen_wiring_SecondOrderMeasures_rows_table_weighted_base :
+  wsrc_SecondOrderMeasures_rows_table_weighted_base = Some (WCall (WGlobal "_MarginTableBase") [WSelf
+      "_dimensions"; WVar "self"; WSelf "_cube_measures"; WAttr (WGlobal "MO") "ROWS"; WAttr (WSelf
+      "_cube_measures") "weighted_cube_counts"] []).
+Proof. reflexivity. Qed.
+
+(* SecondOrderMeasures.rows_unweighted_base *)
+Lemma gen_wiring_SecondOrderMeasures_rows_unweighted_base :
+  wsrc_SecondOrderMeasures_rows_unweighted_base = Some (WCall (WGlobal "_MarginUnweightedBase") [WSelf
+      "_dimensions"; WVar "self"; WSelf "_cube_measures"; WAttr (WGlobal "MO") "ROWS"] []).
+Proof. reflexivity. Qed.
+
+(* SecondOrderMeasures.rows_weighted_base *)
+Lemma gen_wiring_SecondOrderMeasures_rows_weighted_base :
+  wsrc_SecondOrderMeasures_rows_weighted_base = Some (WCall (WGlobal "_MarginWeightedBase") [WSelf
+      "_dimensions"; WVar "self"; WSelf "_cube_measures"; WAttr (WGlobal "MO") "ROWS"] []).
+Proof. reflexivity. Qed.
+
+(* SecondOrderMeasures.table_unweighted_base *)
+Lemma gen_wiring_SecondOrderMeasures_table_unweighted_base :
+  wsrc_SecondOrderMeasures_table_unweighted_base = Some (WCall (WGlobal "_TableBase") [WSelf
+      "_dimensions"; WVar "self"; WSelf "_cube_measures"; WAttr (WSelf "_cube_measures")
+      "unweighted_cube_counts"] []).
+Proof. reflexivity. Qed.
+
+(* SecondOrderMeasures.table_unweighted_bases *)
+Lemma gen_wiring_SecondOrderMeasures_table_unweighted_bases :
+  wsrc_SecondOrderMeasures_table_unweighted_bases = Some (WCall (WGlobal "_TableUnweightedBases")
+      [WSelf "_dimensions"; WVar "self"; WSelf "_cube_measures"] []).
+Proof. reflexivity. Qed.
+
+(* SecondOrderMeasures.table_unweighted_bases_range *)
+Lemma gen_wiring_SecondOrderMeasures_table_unweighted_bases_range :
+  wsrc_SecondOrderMeasures_table_unweighted_bases_range = Some (WCall (WGlobal "_TableBasesRange")
+      [WSelf "_dimensions"; WVar "self"; WSelf "_cube_measures"; WAttr (WSelf "_cube_measures")
+      "unweighted_cube_counts"] []).
+Proof. reflexivity. Qed.
+
+(* SecondOrderMeasures.table_weighted_base *)
+Lemma gen_wiring_SecondOrderMeasures_table_weighted_base :
+  wsrc_SecondOrderMeasures_table_weighted_base = Some (WCall (WGlobal "_TableBase") [WSelf
+      "_dimensions"; WVar "self"; WSelf "_cube_measures"; WAttr (WSelf "_cube_measures")
+      "weighted_cube_counts"] []).
+Proof. reflexivity. Qed.
+
+(* SecondOrderMeasures.table_weighted_bases *)
+Lemma gen_wiring_SecondOrderMeasures_table_weighted_bases :
+  wsrc_SecondOrderMeasures_table_weighted_bases = Some (WCall (WGlobal "_TableWeightedBases") [WSelf
+      "_dimensions"; WVar "self"; WSelf "_cube_measures"] []).
+Proof. reflexivity. Qed.
+
+(* SecondOrderMeasures.table_weighted_bases_range *)
+Lemma gen_wiring_SecondOrderMeasures_table_weighted_bases_range :
+  wsrc_SecondOrderMeasures_table_weighted_bases_range = Some (WCall (WGlobal "_TableBasesRange")
+      [WSelf "_dimensions"; WVar "self"; WSelf "_cube_measures"; WAttr (WSelf "_cube_measures")
+      "weighted_cube_counts"] []).
+Proof. reflexivity. Qed.
+
+(* StripeMeasures.unweighted_bases *)
+Lemma gen_wiring_StripeMeasures_unweighted_bases :
+  wsrc_StripeMeasures_unweighted_bases = Some (WCall (WGlobal "_UnweightedBases") [WSelf
+      "_rows_dimension"; WVar "self"; WSelf "_cube_measures"] []).
+Proof. reflexivity. Qed.
+
+(* StripeMeasures.weighted_bases *)
+Lemma gen_wiring_StripeMeasures_weighted_bases :
+  wsrc_StripeMeasures_weighted_bases = Some (WCall (WGlobal "_WeightedBases") [WSelf
+      "_rows_dimension"; WVar "self"; WSelf "_cube_measures"] []).
 Proof. reflexivity. Qed.
